@@ -2,8 +2,9 @@
 # selftest/store_seed.py <Cnn> <n> "<checks run>" "<result>"  — copy a confirmed seed from /tmp/seed/<Cnn>/SEED_OUT into /verif/seeded/<Cnn>-<n>
 import json,os,shutil,sys,subprocess
 pid,n,ran,res=sys.argv[1],sys.argv[2],sys.argv[3],sys.argv[4]
+dst=sys.argv[5] if len(sys.argv)>5 else n
 so=f'/tmp/seed/{pid}/SEED_OUT'
-d=f'/verif/seeded/{pid}-{n}'
+d=f'/verif/seeded/{pid}-{dst}'
 os.makedirs(d,exist_ok=True)
 shutil.copy(f'{so}/patch{n}.diff', f'{d}/patch.diff')
 if os.path.exists(f'{d}/demo'): shutil.rmtree(f'{d}/demo')
